@@ -331,36 +331,94 @@ def _classify_while(lp, f):
         if ok or covered:
             return 'unwrap loop on a strictly smaller wrapped value', ''
         return None, 'some path through the body does not unwrap %s' % x
-    # iterator loop: while True with next()/yield/exit/shorten on every path
-    if isinstance(lp.test, ast.Constant) and lp.test.value:
-        paths = enumerate_paths(body, '__none__', {})
-        held = None
-        for s in ast.walk(lp):
-            if isinstance(s, ast.Assign) and isinstance(s.value, ast.Call) and call_name(s.value) == 'next' and isinstance(s.targets[0], ast.Tuple):
-                held = s.targets[0].elts[0].id
-        halves = set()
-        for s in ast.walk(lp):
-            if isinstance(s, ast.Assign) and isinstance(s.value, ast.Call) and call_name(s.value) == 'split_at' \
-                    and isinstance(s.targets[0], ast.Tuple) and len(s.targets[0].elts) == 2:
+    # any other loop: every feasible path through the body that does not leave the loop makes progress of a recognised kind -
+    # it advances an iterator / pops, yields (the flushed line is emptied: the piece in hand is consumed on the next round), drops or
+    # shortens the piece in hand, or descends into a strictly smaller object (x = x.attr / a proper slice of x)
+    paths = enumerate_paths(body, '__none__', {})
+    held = None
+    for s in ast.walk(lp):
+        if isinstance(s, ast.Assign) and isinstance(s.value, ast.Call) and call_name(s.value) == 'next' and isinstance(s.targets[0], ast.Tuple):
+            held = s.targets[0].elts[0].id
+        if isinstance(s, ast.Assign) and isinstance(s.value, ast.Call) and call_name(s.value) == 'next' and isinstance(s.targets[0], ast.Name):
+            held = s.targets[0].id
+    halves = set()
+    for s in ast.walk(lp):
+        if isinstance(s, ast.Assign) and isinstance(s.targets[0], ast.Tuple) and len(s.targets[0].elts) == 2:
+            if isinstance(s.value, ast.Call) and call_name(s.value) == 'split_at':
                 halves.add(src(s.targets[0].elts[1]))
-        bad = []
-        for p in paths:
-            progress = p.end in ('break', 'return', 'raise')
-            for e in p.events:
-                if e[0] == 'yield':
-                    progress = True
-                if e[0] == 'call' and e[1] == 'next':
-                    progress = True
-                if e[0] == 'set' and held and e[1] == held and e[3] in ('None',):
-                    progress = True
-                if e[0] == 'set' and held and e[1] == held and ('split_at' in e[3] or e[3] in halves):
-                    progress = True     # shortened to the right half of a split (non-empty left half: C12.c floor)
-            if not progress and not _try_next(body, p):
-                bad.append(p.cond_text()[:120])
-        if not bad:
-            return 'iterator loop: every path advances the iterator, yields, exits or shortens the held piece', ''
-        return None, 'path(s) %s neither advance, yield, exit nor shorten the held piece' % bad[:2]
-    return None, 'unrecognised loop shape (test %s)' % src(lp.test)
+            # x[:k], x[k:]  - the second is the right half
+            if isinstance(s.value, ast.Tuple) and len(s.value.elts) == 2 and all(isinstance(e_, ast.Subscript) and isinstance(e_.slice, ast.Slice) for e_ in s.value.elts) \
+                    and s.value.elts[1].slice.lower is not None and s.value.elts[1].slice.upper is None:
+                halves.add(src(s.targets[0].elts[1]))
+    bad = []
+    for p in paths:
+        if not _path_feasible(p):
+            continue
+        progress = p.end in ('break', 'return', 'raise')
+        for e in p.events:
+            if e[0] == 'yield':
+                progress = True
+            if e[0] == 'call' and (e[1] == 'next' or e[1].endswith(('.pop', '.popleft'))):
+                progress = True
+            if e[0] == 'set' and e[3].startswith(e[1] + '.'):
+                progress = True     # x = x.attr: descent into a strictly smaller object
+            if e[0] == 'set' and held and e[1] == held and (e[3] in ('None',) or e[3].endswith(' or None') and e[3][:-8] in halves):
+                progress = True
+            if e[0] == 'set' and held and e[1] == held and ('split_at' in e[3] or e[3] in halves):
+                progress = True     # shortened to the right half of a split (non-empty left half: C12.c floor)
+        if not progress:
+            bad.append(p.cond_text()[:120])
+    if not bad:
+        return 'every feasible path advances an iterator, yields, exits, shortens the piece in hand or descends into a smaller object', ''
+    return None, 'path(s) %s neither advance, yield, exit, shorten the held piece nor descend' % bad[:2]
+
+
+def _path_feasible(p):
+    """cheap contradiction test over emptiness / length facts of one variable: ``X`` falsy with ``len(X) > k``, ``X`` truthy with
+    ``len(X) == 0`` ...; a test and its negation on the same path"""
+    import re
+    lo, hi = {}, {}
+    seen = {}
+    conds = []
+    from engine.astutil import atomise
+    for t, pol in p.conds:
+        try:
+            atoms = atomise(ast.parse(t, mode='eval').body, pol)
+        except SyntaxError:
+            atoms = []
+        if atoms:
+            conds.extend((a_.text, a_.pol) for a_ in atoms)
+        else:
+            conds.append((t, pol))
+    for t, pol in conds:
+        key = t.replace(' ', '')
+        if seen.get(key, pol) != pol:
+            return False
+        seen[key] = pol
+        m_ = re.fullmatch(r'len\((\w+)\)(<=|>=|==|<|>|!=)(\d+)', key)
+        if m_:
+            x, op, k = m_.group(1), m_.group(2), int(m_.group(3))
+            if not pol:
+                op = {'<=': '>', '>=': '<', '==': '!=', '<': '>=', '>': '<=', '!=': '=='}[op]
+            if op == '>':
+                lo[x] = max(lo.get(x, 0), k + 1)
+            elif op == '>=':
+                lo[x] = max(lo.get(x, 0), k)
+            elif op == '<':
+                hi[x] = min(hi.get(x, 10 ** 9), k - 1)
+            elif op == '<=':
+                hi[x] = min(hi.get(x, 10 ** 9), k)
+            elif op == '==':
+                lo[x] = max(lo.get(x, 0), k)
+                hi[x] = min(hi.get(x, 10 ** 9), k)
+        elif re.fullmatch(r'\w+', key):
+            if pol:
+                if any(('len(%s)' % key) in t2 for t2, _ in conds):
+                    lo[key] = max(lo.get(key, 0), 1)
+            elif any(('len(%s)' % key) in t2 for t2, _ in conds):
+                hi[key] = min(hi.get(key, 10 ** 9), 0)
+    return all(lo.get(x, 0) <= hi.get(x, 10 ** 9) for x in set(lo) | set(hi))
+
 
 
 def _try_next(body, path):
